@@ -25,7 +25,7 @@ pub struct Case {
     #[serde(default)]
     pub ignore_fmt: bool,
     /// settings changed before any data: (0 set_format_and_level(Zlib), 1 set_format_and_level(
-    /// ZLibIgnoreChecksum), 2 set_compression_level_raw; level)
+    /// ZLibIgnoreChecksum), 2 set_compression_level_raw, 3 set_compression_level; level)
     #[serde(default)]
     pub relevel: Option<(u8, u8)>,
 }
@@ -66,7 +66,7 @@ impl Prop for P {
         // half of the schedules are aligned with the segment boundaries (one call per segment, each with
         // its own flush mode), so that a flush falls exactly between "old data" and its far repeat
         let aligned = proptest::collection::vec((prop_oneof![4 => Just(0u8), 3 => Just(2u8), 1 => Just(3u8), 1 => Just(1u8), 1 => Just(7u8)], prop_oneof![1 => 1u32..=3, 3 => Just(u32::MAX)]), 8);
-        (data, prop_oneof![5 => 0u8..=10, 1 => 11u8..=12], 0u8..=4, prop_oneof![8 => 8u8..=15, 1 => 0u8..=7, 1 => Just(16u8)], schedule(3), proptest::option::weighted(0.5, aligned), (proptest::bool::weighted(0.25), proptest::option::weighted(0.2, (0u8..=2, 0u8..=10))))
+        (data, prop_oneof![5 => 0u8..=10, 1 => 11u8..=12], 0u8..=4, prop_oneof![8 => 8u8..=15, 1 => 0u8..=7, 1 => Just(16u8)], schedule(3), proptest::option::weighted(0.5, aligned), (proptest::bool::weighted(0.25), proptest::option::weighted(0.2, (0u8..=3, 0u8..=10))))
             .prop_map(|(data, level, strategy, wbits, mut sched, aligned, (ignore_fmt, relevel))| {
                 if let Some(al) = aligned {
                     let mut steps = Vec::new();
@@ -107,12 +107,13 @@ impl Prop for P {
             guard(|| match kind {
                 0 => c.set_format_and_level(DataFormat::Zlib, lvl),
                 1 => c.set_format_and_level(DataFormat::ZLibIgnoreChecksum, lvl),
-                _ => c.set_compression_level_raw(lvl),
+                2 => c.set_compression_level_raw(lvl),
+                _ => c.set_compression_level([miniz_oxide::deflate::CompressionLevel::NoCompression, miniz_oxide::deflate::CompressionLevel::BestSpeed, miniz_oxide::deflate::CompressionLevel::DefaultLevel, miniz_oxide::deflate::CompressionLevel::BestCompression, miniz_oxide::deflate::CompressionLevel::UberCompression, miniz_oxide::deflate::CompressionLevel::DefaultCompression][lvl as usize % 6]),
             })
             .map_err(|pm| Violation::new(panic_sig("set_level", &pm), format!("setter panicked: {pm}")))?;
             cx.class(&format!("settings-changed-before-data:{kind}"));
         }
-        let how = format!("{fmt:?}{}", match case.relevel { Some((k, l)) => format!(", then {}({l})", ["set_format_and_level(Zlib, ", "set_format_and_level(ZLibIgnoreChecksum, ", "set_compression_level_raw("][k as usize % 3].trim_end_matches(", ").trim_end_matches('(')), None => String::new() });
+        let how = format!("{fmt:?}{}", match case.relevel { Some((k, l)) => format!(", then {}({l})", ["set_format_and_level(Zlib, ", "set_format_and_level(ZLibIgnoreChecksum, ", "set_compression_level_raw(", "set_compression_level(#"][k as usize % 4].trim_end_matches(", ").trim_end_matches('(')), None => String::new() });
         let run = drive_compress(&mut c, &x, &case.sched, Driver::Buf)?;
         let out = &run.out;
         vensure!(out.len() >= 6, "c11:short-output", "zlib output of {} bytes", out.len());
